@@ -468,7 +468,7 @@ def run(chk):
             unusable.append(sig_key(s) + " (" + d[:60] + ")")
         else:
             usable.append(s)
-    per = 30 if quick else 2000
+    per = 30 if quick else 800
     fcases = []
     for s in usable:
         for _ in range(per):
